@@ -51,7 +51,7 @@ def finish(prop, tier, seed, t0, probes, prelude, rule, extra_cov, unexpected, i
         common.write_evidence(prop, tier, seed, cov, wall, len(new), ASSUMPTIONS)
     shown = 0
     for p, sig, msg in new:
-        path = common.save_replay(prop, prelude, p, msg)
+        path = p.meta.get("replay") or common.save_replay(prop, prelude, p, msg)
         print("VIOLATION property=%s replay=%s" % (prop, path))
         print("  [%s] %s" % (sig, msg))
         shown += 1
@@ -114,7 +114,23 @@ def run_c16(tier, seed, replay):
 
 
 def replay_file(prop, path, rlib, extra=()):
-    """Replay = compile the saved program; the header says what was expected."""
+    """Replay = compile the saved program; the header says what was expected.
+    (.replay files of the C19 feature-set differential are run by the matching harness build.)"""
+    if path.endswith(".replay"):
+        import subprocess
+        tag = "rel"
+        for line in open(path):
+            if line.startswith("profile "):
+                tag = line.split()[1]
+        exe = os.path.join(common.TARGET, tag, "rel", "pbt")
+        harness = os.path.join(common.ROOT, "harness")
+        extra_args = ["--no-default-features"] if tag == "noalloc" else []
+        b = subprocess.run(["cargo", "build", "-p", "pbt", "--profile", "rel", "--target-dir", os.path.join(common.TARGET, tag), "--manifest-path", os.path.join(harness, "Cargo.toml")] + extra_args, env=common.ENV, stdout=subprocess.PIPE, stderr=subprocess.PIPE, text=True)
+        if b.returncode != 0:
+            return 2
+        q = subprocess.run([exe, "--replay", path], env=common.ENV, stdout=subprocess.PIPE, stderr=subprocess.PIPE, text=True, timeout=600)
+        sys.stdout.write(q.stdout)
+        return 1 if (q.returncode == 1 or q.returncode < 0) else (0 if q.returncode == 0 else 2)
     text = open(path).read()
     expected = None
     for line in text.splitlines()[:6]:
